@@ -138,7 +138,8 @@ impl LinkFlowState<role::ReceiverMarker> {
     ensures
         final(self).lock.delivery_count == (if flow.delivery_count is Some { flow.delivery_count->Some_0 } else { old(self).lock.delivery_count }),   // [C09.flow.learn-count] the sender's delivery-count is taken from its flow
         final(self).lock.available == (if flow.available is Some { flow.available->Some_0 } else { old(self).lock.available }),
-        final(self).lock.link_credit == old(self).lock.link_credit,                      // [C09.flow.credit-is-receivers] only the receiver chooses link-credit
+        flow.delivery_count is None ==> final(self).lock.link_credit == old(self).lock.link_credit,                      // [C09.flow.credit-is-receivers] only the receiver chooses link-credit ...
+        flow.delivery_count is Some ==> final(self).lock.link_credit == credit_from_peer(old(self).lock.delivery_count, old(self).lock.link_credit, flow.delivery_count->Some_0),   // [C09.flow.sender-advance-consumes-credit] ... but credit the sender reports as used up (it advanced its delivery-count: deliveries sent, or the rest of the credit consumed in answer to drain, AMQP 2.6.7) is no longer outstanding: the delivery-limit delivery-count + link-credit the receiver enforces and advertises is NOT raised by a flow of the sender
         final(self).lock.drain == old(self).lock.drain,
         final(self).lock.initial_delivery_count == old(self).lock.initial_delivery_count,
         final(self).lock.properties == old(self).lock.properties,
@@ -276,9 +277,20 @@ impl Clone for OutputHandle { fn clone(&self) -> (r: Self) ensures r == *self { 
 //@@ subst `Arc<OnceLock<SessionStopReason>>` => `OnceCell<SessionStopReason>` rule=R8
 //@@ end
 
+/// `self.outgoing.send(LinkFrame::Flow(flow))` of the detached disposer. `link_handle` (ghost): the output handle the LINK holds at the time of the call -- None once its detach has been sent
+pub fn send_link_flow(tx: &mut ChanSender<LinkFrame>, flow: LinkFlow, Ghost(link_handle): Ghost<Option<OutputHandle>>) -> (r: Result<(), ChanSendError>)
+    requires link_handle == Some(OutputHandle(flow.handle.0)),      // [C13.link.no-frame-after-detach.disposer] a flow is queued only for the handle the link currently holds: a disposer that works from a copy of the handle taken when it was created keeps writing flows for the handle after the link's detach (and, handles being re-used, possibly into another link)
+    ensures
+        r is Ok ==> final(tx).sent@ == old(tx).sent@.push(LinkFrame::Flow(flow)),
+        r is Err ==> final(tx).sent@ == old(tx).sent@,
+{ tx.send(LinkFrame::Flow(flow)) }
+
 impl ReceiverDisposer {
 //@@ fn file=fe2o3-amqp/src/link/receiver.rs impl=`impl ReceiverDisposer` name=refresh_credit_if_needed
 //@@ selfmut
+//@@ subst `self.outgoing .send(LinkFrame::Flow(flow))` => `send_link_flow(&mut self.outgoing, flow, Ghost(link_handle))` rule=R9
+//@@ entry
+        let ghost link_handle: Option<OutputHandle> = arbitrary();      // whatever the link holds now: the disposer lives on after Receiver::close() / drop
 //@@ subst `self.flow_state.lock.write()` => `(&mut self.flow_state.lock)` rule=optional-R4
 //@@ subst `self.flow_state.lock.read()` => `(&self.flow_state.lock)` rule=optional-R4
 //@@ subst `let handle: Handle = self .output_handle .clone() .ok_or(DispositionError::IllegalState)? .into();` => `let handle: Handle = output_to_handle(self.output_handle.clone().ok_or(DispositionError::IllegalState)?);` rule=R16
